@@ -79,7 +79,7 @@ class Variation:
 
     def __init__(self, rng=None, *, st_perm=None, sess_perm=None, shift=0, evse_kinds=None, dict_shuffle=True,
                  vtypes=True, constraints="none", con_perm=False, mutate=False, twostage=False,
-                 store_hist=True, est_seed=0, verbose=False, queue_form="ctor", late_scheduler=False, np_ints=False, sub_events=False, reuse_evs=False, eps_pilots=False,
+                 store_hist=True, est_seed=0, verbose=False, queue_form="ctor", late_scheduler=False, np_ints=False, sub_events=False, reuse_evs=False, eps_pilots=False, peek=False,
                  aware_start=False):
         self.rng = rng or random.Random(0)
         self.st_perm, self.sess_perm, self.shift = st_perm, sess_perm, shift
@@ -96,6 +96,7 @@ class Variation:
         # class accepts, and what is recorded and applied is the submitted value (energies are then not those of the
         # specification: only the implementation's own ledger is compared, as for two-stage batteries)
         self.eps_pilots = eps_pilots
+        self.peek = peek                  # somebody reads the scheduler's interface before / between runs (a look changes nothing)
         self.np_ints = np_ints          # arrivals / departures / event timestamps as numpy integers
         self.aware_start = aware_start  # Simulator.start carries a time zone (the clock is compared by its wall time)
 
@@ -464,6 +465,9 @@ class Replay:
             items.append(("NOPE-99", [0] * m["len"]))
         if m["kind"] == "ragged":
             items[0] = (items[0][0], items[0][1] + [0])
+        if m["kind"] == "ragged1":
+            j = rng.randrange(len(items))
+            items[j] = (items[j][0], items[j][1][:1])
         if (iface is not None and m["kind"] == "ok" and m["len"] >= 1 and len(items) == self.ns and self.var.vtypes
                 and rng.random() < 0.5):
             # the documented helper for algorithms that work on arrays: rows in the order of the infrastructure's
@@ -854,6 +858,17 @@ class Replay:
             self.dump_load(self.snapshot())
         while True:
             before = None
+            if self.var.peek and self.sim.scheduler is not None:
+                # a read-only look through the interface while run() is not executing (a dashboard, a debugger, a
+                # register_interface override): observing the simulation must not change it
+                iface = self.sim.scheduler.interface
+                for look in (lambda: iface.active_sessions(), lambda: iface.last_applied_pilot_signals,
+                             lambda: iface.last_actual_charging_rate, lambda: iface.current_time,
+                             lambda: iface.infrastructure_info(), lambda: iface.get_prev_peak()):
+                    try:
+                        look()
+                    except Exception:  # noqa  (what a look returns before the first period is not specified)
+                        pass
             try:
                 self.sim.run()
             except ScriptedCrash:
